@@ -137,10 +137,36 @@ fn run_case(out: &mut Out, run: usize, case: &Value) {
 }
 
 pub fn main(a: &Args) {
-    let mut out = Out::create(a.req("out"));
+    // Every case runs in its own thread under a watchdog: an engine that deadlocks (its threads block each other, the
+    // feeder blocks on the store lock) must become data, not a hung check.  After a hang the process cannot be trusted
+    // any more (blocked pool threads, held locks): the event is recorded and the driver exits with status 3; the check
+    // restarts it behind the fatal case (--skip / --start-run).
+    let out = std::sync::Arc::new(std::sync::Mutex::new(Out::create(a.req("out"))));
     let cases = read_cases(a.req("cases"));
-    for (n, case) in cases.iter().enumerate() {
-        run_case(&mut out, n + 1, case);
+    let skip = a.num("skip", 0) as usize;
+    let deadline = Duration::from_secs(a.num("deadline", 90));
+    for (n, case) in cases.iter().enumerate().skip(skip) {
+        let (tx, rx) = std::sync::mpsc::channel::<()>();
+        let o2 = out.clone();
+        let c2 = case.clone();
+        std::thread::spawn(move || {
+            // events of this case are buffered so that a hung case leaves a well-formed trace
+            let mut buf = Out::create("/dev/null");
+            buf.capture();
+            run_case(&mut buf, n + 1, &c2);
+            let evs = buf.take_captured();
+            let mut o = o2.lock().unwrap();
+            for e in evs { o.ev(e); }
+            let _ = tx.send(());
+        });
+        if rx.recv_timeout(deadline).is_err() {
+            let mut o = out.lock().unwrap();
+            o.ev(json!({"ev":"reset","run":n + 1,"case":case}));
+            o.ev(json!({"ev":"hang","run":n + 1,"seconds":deadline.as_secs()}));
+            o.ev(json!({"ev":"end","run":n + 1,"panic":false}));
+            o.flush();
+            std::process::exit(3);
+        }
     }
-    out.finish();
+    out.lock().unwrap().flush();
 }
